@@ -160,8 +160,14 @@ package node
 //@   loop 0 invariant[args] -1 <= rangeindex && emitInv(cr)
 //@ func (Assign).byteCode [C05,C12] implements ByteCoder.byteCode
 //@   assumes[unfold] exprOK(a.Value) && wfAST(a.VarRef) && (dyntype(a.VarRef) == typeid[Name]() || dyntype(a.VarRef) == typeid[Local]())
+//@ fun isOperatorOpc(op bytecode.OpCode) bool := op == bytecode.ADD || op == bytecode.SUB || op == bytecode.MUL || op == bytecode.DIV || op == bytecode.MOD
+//@     || op == bytecode.AND || op == bytecode.OR || op == bytecode.LT || op == bytecode.GT || op == bytecode.LE || op == bytecode.GE || op == bytecode.EQ || op == bytecode.NE
+//@     || op == bytecode.LSH || op == bytecode.RSH
+//@ pred isOperatorStr(s string) bool := s == "+" || s == "-" || s == "*" || s == "/" || s == "%" || s == "&" || s == "&&" || s == "|" || s == "||" || s == "==" || s == "!="
+//@     || s == "<" || s == "<=" || s == ">" || s == ">=" || s == "<<" || s == ">>"
 //@ func (BinOp).byteCode [C05,C12] implements ByteCoder.byteCode
-//@   assumes[unfold] exprOK(b.Left) && exprOK(b.Right)
+//@   assumes[unfold] exprOK(b.Left) && exprOK(b.Right) && isOperatorStr(b.Op)
+//@   cut switch.done 0 havoc op invariant isOperatorOpc(op)
 //@ func (UnOp).byteCode [C05,C12] implements ByteCoder.byteCode
 //@   assumes[unfold] exprOK(u.Target) && (u.Op == "-" || u.Op == "#" || u.Op == "!" || u.Op == "~")
 //@   assumes[fold]   wfAST(BinOp{Op: "*", Left: Int(-1), Right: u.Target})   // negation is compiled as (-1) * target: a well-formed product of two expressions
